@@ -96,8 +96,9 @@ def demoTight : List Tok :=
 example : Wf false demoTight ∧ absAll demo = absAll demoTight ∧ renderAll demo ≠ renderAll demoTight :=
   ⟨wfB_sound _ _ (by decide), by decide, by decide⟩
 
-/-- An explicit `[0]` (with any inner whitespace) denotes the same term as no index. -/
-theorem explicit_zero (k : Kind) (w : List Char) : indexOf k (some ['0']) = indexOf k none := by
+/-- An explicit `[0]` denotes the same term as no index (inner whitespace never reaches the raw index text:
+    `scan_render` reports `text`, not `w1 text w2`). -/
+theorem explicit_zero (k : Kind) : indexOf k (some ['0']) = indexOf k none := by
   cases k <;> decide
 
 /-! ## Statements are assembled independently -/
